@@ -435,6 +435,11 @@ class Report:
         self.violations.append((cls, field, replay))
 
     def finish(self):
+        apps_mod = sys.modules.get("apps")
+        if apps_mod is not None and getattr(apps_mod, "INTERFERENCE", None):
+            raise ToolError("client processes were terminated by SIGTERM from outside the check (%d: %s ...): nothing is concluded from "
+                            "this run - run it again while nothing else signals the clients"
+                            % (len(apps_mod.INTERFERENCE), ", ".join(apps_mod.INTERFERENCE[:3])))
         # one replay file and one VIOLATION line per distinct (class, field); the first witness is kept
         seen = {}
         for cls, field, replay in self.violations:
